@@ -5,6 +5,7 @@ package sftp_test
 // queues are unbounded.
 
 import (
+	"encoding/binary"
 	"errors"
 	"io"
 	"sync"
@@ -31,6 +32,10 @@ type vfQ struct {
 
 	tap    []byte // every byte ever written (accepted)
 	writes int
+	frames int // complete frames in tap
+	parsed int // tap offset up to which frames were counted
+	badTap bool // the tap stopped being a sequence of frames
+	abort  bool // wakes WaitFrames
 
 	failWrite   int // index of the Write call that fails (-1 = none)
 	failPartial int // bytes that failing Write accepts
@@ -111,6 +116,18 @@ func (q *vfQ) Write(p []byte) (int, error) {
 		q.wfailed = true
 	}
 	q.tap = append(q.tap, p[:n]...)
+	for !q.badTap && len(q.tap)-q.parsed >= 4 {
+		ln := int(binary.BigEndian.Uint32(q.tap[q.parsed:]))
+		if ln == 0 || ln > 256*1024 {
+			q.badTap = true
+			break
+		}
+		if len(q.tap)-q.parsed-4 < ln {
+			break
+		}
+		q.frames++
+		q.parsed += 4 + ln
+	}
 	if q.gated {
 		q.held = append(q.held, p[:n]...)
 	} else {
@@ -171,6 +188,36 @@ func (q *vfQ) TapLen() int {
 	q.mu.Lock()
 	defer q.mu.Unlock()
 	return len(q.tap)
+}
+
+// WaitFrames blocks until the tap holds at least n complete frames (true) or
+// AbortWait is called (false). Run it in its own goroutine under vfAwait.
+func (q *vfQ) WaitFrames(n int) bool {
+	q.mu.Lock()
+	defer q.mu.Unlock()
+	for q.frames < n && !q.abort {
+		q.cond.Wait()
+	}
+	return q.frames >= n
+}
+
+func (q *vfQ) AbortWait() {
+	q.mu.Lock()
+	q.abort = true
+	q.mu.Unlock()
+	q.cond.Broadcast()
+}
+
+func (q *vfQ) ResetAbort() {
+	q.mu.Lock()
+	q.abort = false
+	q.mu.Unlock()
+}
+
+func (q *vfQ) Frames() int {
+	q.mu.Lock()
+	defer q.mu.Unlock()
+	return q.frames
 }
 
 func (q *vfQ) Writes() int {
